@@ -1327,11 +1327,28 @@ func drawM(rt *rapid.T) Case {
 			tags = append(tags, i)
 		}
 	}
-	kind := g.upto("edit", 6)
+	kind := g.upto("edit", 7)
 	if len(tags) == 0 && kind >= 2 && kind <= 4 {
 		kind = 5
 	}
 	switch kind {
+	case 6, 7: // a stray tag: an end (or start) tag that matches nothing, at any depth
+		at := g.upto("at", len(lines))
+		names := []string{"root", "Root", "xml", "tars", "zc", "a", "conf", "domain"}
+		for _, l := range lines {
+			if l.T == tOpen {
+				names = append(names, l.N)
+			}
+		}
+		stray := Line{T: tClose, N: pick(g, "strayname", names), E: "\n"}
+		if g.upto("strayopen", 3) == 0 {
+			stray.T = tOpen
+		}
+		lines = append(append(append([]Line(nil), lines[:at]...), stray), lines[at:]...)
+		if at > 0 && lines[at-1].E == "" {
+			lines[at-1].E = "\n"
+		}
+		c.Edit, c.Prefix = "struct", at
 	case 0, 1: // junk line(s): markup-biased random bytes
 		at := g.upto("at", len(lines))
 		junk := rapid.SliceOfN(junkByte, 1, 24).Draw(rt, "junk")
